@@ -253,67 +253,126 @@ func checkC14(c *Ctx, r *Report) {
 
 	// (3) chain
 	r.Rule("next-chain", "after each record the next request asks for the response's Next record ID with offset 0 and the header length; the first request asks for 0x0000", 4)
-	var nextSt, off0, len5 *ssa.Store
-	for _, s := range rs {
-		if !canReachIn(walk, hdrSend, s.st) || !canReachIn(walk, s.st, hdrSend) {
-			continue
+	// Decided per feasible path of the walk's flattened view with the record loop taken up to
+	// twice: what the request holds at each header read is the last value stored into it on
+	// the path (field assignments at the top or the bottom of the loop, a loop variable, a
+	// helper — all the same), and the exit that returns the map is taken where the ID that
+	// would be requested next equals 0xFFFF.
+	cmdRoot := func(p CPath, oc OccPos) ssa.Value {
+		call := oc.In.(*ssa.Call)
+		args := callArgs(&call.Call)
+		if len(args) == 0 {
+			return nil
 		}
-		switch s.sel {
-		case "Req.RecordID":
-			nextSt = s.st
-		case "Req.Offset":
-			if k, isK := constInt(s.st.Val); isK && k == 0 {
-				off0 = s.st
-			}
-		case "Req.Length":
-			if k, isK := constInt(s.st.Val); isK && k == 5 {
-				len5 = s.st
-			}
-		}
+		return p.Upto(oc.Seg).APIn(oc.Ctx, args[len(args)-1]).Root
 	}
-	okNext := false
-	if nextSt != nil {
-		if ld, ok := nextSt.Val.(*ssa.UnOp); ok && ld.Op == token.MUL && apOf(ld.X).SelString() == "Rsp.Next" {
-			okNext = true
-		}
-	}
-	r.Check(okNext, name+"|next record", walk.Pos(), "RecordID ← Rsp.Next", "the next request's record ID is not taken from the last response's Next field")
-	// the reset must happen on every path from the store/type test back to the header request, including after a body read
-	r.Check(off0 != nil && len5 != nil && canReachIn(walk, bodySend, off0) && canReachIn(walk, bodySend, len5), name+"|reset to header read", walk.Pos(), "Offset ← 0, Length ← 5 before the next header read", "offset/length are not reset to a header read (0, 5) after a body read")
-	// initial literal
-	// stores to the request that happen before the loop define the first request
-	first := map[string][]ssa.Value{}
-	for _, s0 := range rs {
-		if mustPrecede(walk, s0.st, hdrSend) && !canReachIn(walk, hdrSend, s0.st) {
-			first[s0.sel] = append(first[s0.sel], s0.st.Val)
-		}
-	}
-	allConst := func(vs []ssa.Value, want int64, required bool) bool {
-		if len(vs) == 0 {
-			return !required
-		}
-		for _, v := range vs {
-			if k, isK := constInt(v); !isK || k != want {
-				return false
+	okFirst, okNext, okReset, okExit := true, true, true, true
+	nFirst, nNext, nExit := 0, 0, 0
+	whyNext := ""
+	completeW := enumPaths(walk, 2, 200000, func(p CPath) {
+		occs := p.OccsPos()
+		var hdrs []int
+		for i, oc := range occs {
+			if oc.In == ssa.Instruction(hdrSend) {
+				hdrs = append(hdrs, i)
 			}
 		}
-		return true
-	}
-	okFirst := allConst(first["Req.RecordID"], 0, false) && allConst(first["Req.Offset"], 0, false) && allConst(first["Req.Length"], 5, true)
-	r.Check(okFirst, name+"|first request", walk.Pos(), "RecordID 0x0000, Offset 0, Length 5", "the first request is not a header read of record 0x0000")
-	// (4) loop exit
-	okExit := false
-	for _, ifi := range viewIfs(walk) {
-		op, x, y, _, isBin := condOf(ifi.Cond)
-		if isBin && (op == token.NEQ || op == token.EQL) {
-			if ld, ok := x.(*ssa.UnOp); ok && ld.Op == token.MUL && apOf(ld.X).SelString() == "Req.RecordID" {
-				if k, isK := constInt(y); isK && k == 0xffff {
-					okExit = true
+		fieldAt := func(at int, root ssa.Value, sel string) (ssa.Value, bool) {
+			v, si, ok := p.storedBefore(occs, at, func(a AP) bool { return a.Root == root && a.SelString() == sel })
+			if !ok {
+				return nil, false
+			}
+			return p.forward(occs, si, nil, v), true
+		}
+		constIs := func(v ssa.Value, has bool, want int64, required bool) bool {
+			if !has {
+				return !required
+			}
+			k, isK := constInt(v)
+			return isK && k == want
+		}
+		for n, h := range hdrs {
+			root := cmdRoot(p, occs[h])
+			if root == nil {
+				okFirst = false
+				continue
+			}
+			id, hasID := fieldAt(h, root, "Req.RecordID")
+			off, hasOff := fieldAt(h, root, "Req.Offset")
+			ln, hasLn := fieldAt(h, root, "Req.Length")
+			if n == 0 {
+				nFirst++
+				// a freshly allocated request holds zeroes where nothing was stored
+				if !(constIs(id, hasID, 0, false) && constIs(off, hasOff, 0, false) && constIs(ln, hasLn, 5, true)) {
+					okFirst = false
+				}
+				continue
+			}
+			nNext++
+			// the ID: Rsp.Next of the same request object, read after the previous header read
+			good := false
+			if ld, ok := stripConv(id).(*ssa.UnOp); hasID && ok && ld.Op == token.MUL {
+				for j := hdrs[n-1] + 1; j < h; j++ {
+					if occs[j].In == ssa.Instruction(ld) {
+						a := p.Upto(occs[j].Seg).APIn(occs[j].Ctx, ld.X)
+						if a.Root == root && a.SelString() == "Rsp.Next" {
+							good = true
+						}
+					}
+				}
+			}
+			if !good {
+				okNext = false
+				whyNext = "the ID requested after a record is not that record's Rsp.Next"
+			}
+			if !(constIs(off, hasOff, 0, true) && constIs(ln, hasLn, 5, true)) {
+				okReset = false
+			}
+		}
+		// normal exit: the map is returned
+		ret, isRet := p.Last().(*ssa.Return)
+		if !isRet || ret.Parent() != walk || len(ret.Results) != 2 || isNilConst(p.Resolve(ret.Results[0])) || len(hdrs) == 0 {
+			return
+		}
+		nExit++
+		last := hdrs[len(hdrs)-1]
+		root := cmdRoot(p, occs[last])
+		exitOK := false
+		for _, rel := range p.relations() {
+			if rel.Op != token.EQL {
+				continue
+			}
+			for _, pr := range [][2]ssa.Value{{rel.X, rel.Y}, {rel.Y, rel.X}} {
+				k, isK := constInt(p.Resolve(pr[1]))
+				if !isK || k != 0xffff {
+					continue
+				}
+				// the compared value, as of the end of the path, forwarded through the request
+				v := p.forward(occs, len(occs)-1, nil, pr[0])
+				if ld, ok := stripConv(v).(*ssa.UnOp); ok && ld.Op == token.MUL {
+					for j := last + 1; j < len(occs); j++ {
+						if occs[j].In == ssa.Instruction(ld) {
+							a := p.Upto(occs[j].Seg).APIn(occs[j].Ctx, ld.X)
+							if a.Root == root && a.SelString() == "Rsp.Next" {
+								exitOK = true
+							}
+						}
+					}
 				}
 			}
 		}
+		if !exitOK {
+			okExit = false
+		}
+	})
+	if !completeW {
+		r.Unk(name+"|next record", walk.Pos(), "too many paths")
+	} else {
+		r.Check(okNext && nNext > 0, name+"|next record", walk.Pos(), "RecordID ← Rsp.Next", "the next request's record ID is not taken from the last response's Next field: "+whyNext)
+		r.Check(okReset && nNext > 0, name+"|reset to header read", walk.Pos(), "Offset ← 0, Length ← 5 before the next header read", "offset/length are not reset to a header read (0, 5) after a body read")
+		r.Check(okFirst && nFirst > 0, name+"|first request", walk.Pos(), "RecordID 0x0000, Offset 0, Length 5", "the first request is not a header read of record 0x0000")
+		r.Check(okExit && nExit > 0, name+"|loop exit", walk.Pos(), "loop ends at record ID 0xFFFF", "the walk's loop does not end exactly when the next record ID is 0xFFFF")
 	}
-	r.Check(okExit, name+"|loop exit", walk.Pos(), "loop ends at record ID 0xFFFF", "the walk's loop does not test the next record ID against 0xFFFF")
 
 	r.Rule("errors-abort", "every return other than the final one returns a nil map and a non-nil error; the final return is reached only through the 0xFFFF exit", 3)
 	// the records of an abandoned walk must not survive: the map is allocated by the walk itself
